@@ -97,6 +97,18 @@ func NumberPool() []NumCase {
 	add(cty.NumberIntVal(1).Add(cty.NumberIntVal(2)), "same-value-other-prec", true)
 	add(cty.NumberFloatVal(0.5).Multiply(cty.NumberIntVal(6)), "same-value-other-prec", true)
 	add(cty.NumberFloatVal(0.1).Add(cty.NumberFloatVal(0.2)), "float64-sum", false)
+	// whole numbers held at a precision narrower than their magnitude (mantissa shorter than the binary exponent):
+	// their shortest identifying decimal text is padded with zeros and denotes ANOTHER integer, so every path that
+	// prints and re-reads a number (to-string conversion, JSON, msgpack's string fallback, hashing) must write all
+	// digits. float64-derived values between 2^53 and 2^64, products at 64 bits, odd precisions.
+	for _, f := range []float64{float64(1 << 63), float64(math.MaxInt64), float64(1<<62 + 1<<10), -float64(1<<62 + 1<<10), float64(1<<53 + 2), float64(math.MaxUint64),
+		123456789012345678, 1e17 + 16, 9007199254740993 * 3} {
+		add(cty.NumberFloatVal(f), "whole-narrow-mantissa", false)
+	}
+	add(cty.NumberIntVal(math.MaxInt64).Multiply(cty.NumberIntVal(3)), "whole-narrow-mantissa", false)
+	add(cty.NumberFloatVal(1e23).Multiply(cty.NumberIntVal(3)), "whole-narrow-mantissa", false)
+	add(cty.NumberVal(new(big.Float).SetPrec(100).Add(pow2(120), pow2(30))), "whole-narrow-mantissa", false)
+	add(cty.NumberVal(new(big.Float).SetPrec(24).SetFloat64(16777216*1048577)), "whole-narrow-mantissa", false)
 	numberPool = p
 	return p
 }
@@ -115,6 +127,15 @@ func Number(r *core.Rand) NumCase {
 	case 4:
 		s := fmt.Sprintf("%d.%d", r.Intn(1000)-500, r.Intn(100000))
 		return NumCase{cty.MustParseNumberVal(s), "parsed-decimal", false}
+	case 5:
+		if r.Chance(1, 3) {
+			// a random whole float64 of magnitude 2^53 .. 2^75
+			f := math.Ldexp(float64(1<<52+r.Int63()%(1<<52)), 1+r.Intn(22))
+			if r.Bool() {
+				f = -f
+			}
+			return NumCase{cty.NumberFloatVal(f), "whole-narrow-mantissa", false}
+		}
 	}
 	return p[r.Intn(len(p))]
 }
